@@ -76,7 +76,15 @@ class CodeGenerator:
             "output": self.output_path,
         }
 
-        for result in self.generate(fcp, ctx):
+        results = list(self.generate(fcp, ctx))
+
+        # Two results for one path would silently overwrite each other
+        paths = [Path(r.get("path")) for r in results if r.get("type") == "file"]  # type: ignore
+        duplicates = sorted({str(p) for p in paths if paths.count(p) > 1})
+        if duplicates:
+            raise ValueError(f"Generator returned several files for {duplicates}")
+
+        for result in results:
             handle_result(result)
 
     def generate(self, fcp: FcpV2, ctx: Any) -> List[Dict[str, Union[str, Path]]]:
